@@ -109,12 +109,99 @@ class EngineCheck(Check):
                        self.sample(case, refres, obs), runs=len(obs), excluded=case.get('excluded', ()))
 
 
+def draw_cases(seed, n, **kw):
+    """n generated cases outside of a @given test (for systematic sub-explorations)"""
+    from hypothesis import HealthCheck
+    from hypothesis import Phase
+    from hypothesis import given
+    from hypothesis import seed as hseed
+    from hypothesis import settings
+
+    out = []
+
+    @hseed(seed)
+    @settings(max_examples=n, database=None, deadline=None, phases=[Phase.generate],
+              suppress_health_check=list(HealthCheck))
+    @given(G.cases(**kw))
+    def collect(case):
+        out.append(case)
+
+    collect()
+    return out
+
+
+def enumerate_schedules(prog, var, comp, refres, budget=5000, collab=None):
+    """depth-first re-execution over ALL index tapes of one program: the choice log of a run tells how many
+    options every choice point had; the last position with an untried option is incremented and the suffix
+    dropped. Yields (tape, observation); returns after `budget` runs (exhausted=False then)."""
+    tape = []
+    runs = 0
+    while True:
+        o = E.run_once(prog, var, {'kind': 'index', 'tape': tape}, compiled=comp, refres=refres, collab=collab)
+        runs += 1
+        yield list(tape), o
+        log = o.choice_log
+        nxt = None
+        for i in range(len(log) - 1, -1, -1):
+            n, c = log[i]
+            if c < n - 1:
+                nxt = [x[1] for x in log[:i]] + [c + 1]
+                break
+        if nxt is None or runs >= budget:
+            return
+        tape = nxt
+
+
+class ScheduleEnumerationMixin:
+    """thorough tier: exhaustive schedule exploration of small programs"""
+
+    enum_programs = 30
+    enum_budget = 3000
+
+    def enum_oracle(self, case, refres, o):
+        raise NotImplementedError
+
+    def extra(self, tier, seed, stats):
+        if tier != 'thorough':
+            return
+        from verifkit.driver import ViolationFound
+
+        cases = draw_cases(seed + 101, self.enum_programs, feats=self.feats, clean=True, n_scheds=0, min_nodes=3,
+                           max_nodes=7)
+        exhausted = total = 0
+        for case in cases:
+            case = _sanitize(case)
+            prog, var = case['program'], case['variant']
+            refres = REF.reference(prog, var)
+            comp = C.compile_program(prog)
+            keys = set()
+            n = 0
+            last_log_exhausted = True
+            for tape, o in enumerate_schedules(prog, var, comp, refres, self.enum_budget):
+                n += 1
+                viol = self.enum_oracle(case, refres, o)
+                keys.add(E.outcome_key(o))
+                if not viol and len(keys) > 1 and self.id == 'C01':
+                    viol = [('schedule-dependent-outcome', f'{sorted(map(str, keys))}')]
+                if viol:
+                    bad = dict(case, scheds=[{'kind': 'index', 'tape': tape}])
+                    raise ViolationFound(bad, [(s, f'[enumerated tape {tape}] {d}') for s, d in viol])
+            last_log_exhausted = n < self.enum_budget
+            exhausted += last_log_exhausted
+            total += n
+            verdict = Verdict([], n >= 2, ['schedules-enumerated'] + (['schedule-tree-exhausted'] if
+                                                                     last_log_exhausted else []), None, runs=n)
+            stats.record(self, dict(case, enumerated=True), verdict)
+        stats.extra['exhaustive_schedule_programs'] = stats.extra.get('exhaustive_schedule_programs', 0) + exhausted
+        stats.extra['enumerated_schedules'] = stats.extra.get('enumerated_schedules', 0) + total
+
+
 def _tag(viol, i):
     return [(s, f'[schedule {i}] {d}') for s, d in viol]
 
 
 # ------------------------------------------------------------------------------------------------ C01
-class C01(EngineCheck):
+class C01(ScheduleEnumerationMixin, EngineCheck):
     id = 'C01'
     rule = ('case = generated program (all mark kinds, modes, retry settings) x behaviour variant x 1 FIFO + 3 '
             'generated schedules (index tapes and rank schedules); non-trivial = at least two completions were '
@@ -138,6 +225,9 @@ class C01(EngineCheck):
     def nontrivial(self, case, refres, obs):
         return max(o.max_outstanding for o in obs) >= 2 and len({tuple(fire_order(o)) for o in obs}) > 1
 
+    def enum_oracle(self, case, refres, o):
+        return O.oracle_outcome(o, refres)
+
 
 # ------------------------------------------------------------------------------------------------ C02
 @st.composite
@@ -158,7 +248,7 @@ def collabs(draw, faults=True):
     return {'ems': ems, 'store': store}
 
 
-class C02(EngineCheck):
+class C02(ScheduleEnumerationMixin, EngineCheck):
     id = 'C02'
     rule = ('case = generated program x variant with faults placed anywhere (node failures on any attempt, None/falsy '
             'values, unknown switch labels, failures at any depth of one-of candidates, raising or gated event '
@@ -182,6 +272,9 @@ class C02(EngineCheck):
         for i, o in enumerate(obs):
             v += _tag(O.oracle_termination(o), i)
         return v
+
+    def enum_oracle(self, case, refres, o):
+        return O.oracle_termination(o)
 
     def nontrivial(self, case, refres, obs):
         faults = bool(refres['invocations']) and (
